@@ -5,6 +5,7 @@ use crate::execution::operators::OperatorError;
 use crate::execution::pipeline::{ChunkSizeHint, PushOperator, Sink};
 #[cfg(feature = "spill")]
 use crate::execution::spill::{ExternalSort, SpillManager};
+#[cfg(test)]
 use crate::execution::vector::ValueVector;
 use grafeo_common::types::Value;
 use std::cmp::Ordering;
@@ -182,20 +183,8 @@ impl PushOperator for SortPushOperator {
             return Ok(());
         }
 
-        // Build output chunk from sorted rows
-        let mut columns: Vec<ValueVector> = (0..num_cols).map(|_| ValueVector::new()).collect();
-
-        for row in &self.buffer {
-            for (col_idx, col) in columns.iter_mut().enumerate() {
-                let val = row.get(col_idx).cloned().unwrap_or(Value::Null);
-                col.push(val);
-            }
-        }
-
-        let chunk = DataChunk::new(columns);
-        sink.consume(chunk)?;
-
-        Ok(())
+        // Emit the sorted rows in chunks of the standard size
+        super::emit_rows(&self.buffer, num_cols, sink)
     }
 
     fn preferred_chunk_size(&self) -> ChunkSizeHint {
@@ -390,20 +379,8 @@ impl PushOperator for SpillableSortPushOperator {
             return Ok(());
         }
 
-        // Build output chunk from sorted rows
-        let mut columns: Vec<ValueVector> = (0..num_cols).map(|_| ValueVector::new()).collect();
-
-        for row in &sorted_rows {
-            for (col_idx, col) in columns.iter_mut().enumerate() {
-                let val = row.get(col_idx).cloned().unwrap_or(Value::Null);
-                col.push(val);
-            }
-        }
-
-        let chunk = DataChunk::new(columns);
-        sink.consume(chunk)?;
-
-        Ok(())
+        // Emit the sorted rows in chunks of the standard size
+        super::emit_rows(&sorted_rows, num_cols, sink)
     }
 
     fn preferred_chunk_size(&self) -> ChunkSizeHint {
@@ -586,5 +563,30 @@ mod tests {
         for i in 0..6 {
             assert_eq!(col.get_value(i), Some(Value::Int64((6 - i) as i64)));
         }
+    }
+
+    #[test]
+    fn test_sort_emits_chunks_of_standard_size() {
+        use crate::execution::pipeline::DEFAULT_CHUNK_SIZE;
+
+        let n = 2 * DEFAULT_CHUNK_SIZE + 5;
+        let values: Vec<i64> = (0..n as i64).rev().collect();
+        let mut sort = SortPushOperator::ascending(0);
+        let mut sink = CollectorSink::new();
+        sort.push(create_test_chunk(&values), &mut sink).unwrap();
+        sort.finalize(&mut sink).unwrap();
+
+        let chunks = sink.into_chunks();
+        assert_eq!(chunks.len(), 3);
+        assert!(chunks.iter().all(|c| c.len() <= DEFAULT_CHUNK_SIZE));
+        let mut expected = 0i64;
+        for chunk in &chunks {
+            let col = chunk.column(0).unwrap();
+            for i in 0..chunk.len() {
+                assert_eq!(col.get_value(i), Some(Value::Int64(expected)));
+                expected += 1;
+            }
+        }
+        assert_eq!(expected, n as i64);
     }
 }
